@@ -10,17 +10,17 @@ import common, pgmgen
 from common import ltok, qtok, parse_qlist, parse_q
 
 
-def build_case(chk, rng, tier):
+def build_case(chk, rng, tier, force_ring=False):
     from mbi import Domain, GraphicalModel, Factor, CliqueVector
     attrs, sizes, cliques, order, mode = pgmgen.gen_structure(rng, max_attrs=6,
-                                                              max_cells=300 if tier == 'quick' else 1200)
+                                                              max_cells=300 if tier == 'quick' else 1200, force_ring=force_ring)
     ids = pgmgen.ids_of(attrs)
     dom = Domain(attrs, sizes)
     np.random.seed(rng.randrange(2 ** 31))
     total = rng.choice([1.0, 10.0, 0.3, 1234.5])
     model = GraphicalModel(dom, [rng.choice([list, tuple])(c) for c in cliques], total, elimination_order=order)
     mcl = list(model.cliques)
-    stream = rng.choice(['small', 'small', 'zeros', 'zeros', 'huge', 'unit'])
+    stream = rng.choice(['small', 'small', 'zeros', 'zeros', 'huge', 'unit', 'compensate', 'compensate'])
     cfg = dict(zip(attrs, sizes))
     pots = {}
     facs = {}
@@ -31,11 +31,25 @@ def build_case(chk, rng, tier):
         n = 1
         for a in pa:
             n *= cfg[a]
-        vals = pgmgen.gen_potential(rng, n, stream)
+        vals = pgmgen.gen_potential(rng, n, 'small' if stream == 'compensate' else stream)
         pots[cl] = (pa, vals)
         facs[cl] = Factor(dom.project(pa), np.array([pgmgen.flog(v) for v in vals]))
+    if stream == 'compensate':
+        # two neighbouring cliques carry huge offsets that cancel along their separator: theta_1 + f(b), theta_2 - f(b) with |f| far beyond the
+        # range of exp(); the joint is moderate, every slice of every message has its own magnitude
+        pairs = [(c1, c2) for c1 in mcl for c2 in model.neighbors[c1] if set(c1) & set(c2)]
+        if pairs:
+            c1, c2 = rng.choice(pairs)
+            b = rng.choice(sorted(set(c1) & set(c2)))
+            ks = [rng.choice([0, 1200, -1200, 600, -600]) for _ in range(cfg[b])]
+            import itertools as _it2
+            for cl, sign in ((c1, 1), (c2, -1)):
+                pa, vals = pots[cl]
+                new = [v * Fraction(2) ** (sign * ks[cell[pa.index(b)]]) for cell, v in zip(_it2.product(*[range(cfg[a]) for a in pa]), vals)]
+                pots[cl] = (pa, new)
+                facs[cl] = Factor(dom.project(pa), np.array([pgmgen.flog(v) for v in new]))
     folded = None
-    if rng.random() < 0.35 and stream != 'huge':
+    if rng.random() < 0.35 and stream not in ('huge', 'compensate'):
         # a potential on a nested clique (preferably inside a separator, so that several maximal cliques contain it), folded into the
         # maximal-clique vector by the library's own CliqueVector.combine - as estimation does with structural zeros / warm starts.
         # The model receives the exact product folded into ONE containing clique: the joint is the product of all potentials, each once.
@@ -107,6 +121,31 @@ def run_code(case, sched):
         pa = case['pots'][cl][0]
         out[cl] = (list(f.domain.attrs), [float(v) for v in np.asarray(f.values, dtype=float).reshape(-1)])
     return float(logZ), out
+
+
+def run_history(case, sched, rng):
+    """A second pair of calls on the SAME model with the SAME parameter object after an in-place update of one clique potential:
+    the result must be the marginals of the updated parameters (nothing may be remembered from the first call)."""
+    from mbi import CliqueVector, Factor
+    m = case['model']
+    m.message_order = list(sched)
+    pot = CliqueVector({cl: case['facs'][cl].copy() for cl in case['mcl']})
+    with np.errstate(all='ignore'):
+        m.belief_propagation(pot); m.belief_propagation(pot, logZ=True)
+        cl0 = rng.choice(case['mcl'])
+        pa, vals = case['pots'][cl0]
+        extra = [Fraction(rng.randint(1, 9), rng.randint(1, 9)) for _ in vals]
+        f0 = pot[cl0]
+        upd = Factor(f0.domain.project(pa), np.array([pgmgen.flog(e) for e in extra]).reshape([f0.domain[a] for a in pa]))
+        pot[cl0] += upd
+        marg = m.belief_propagation(pot)
+        logZ = m.belief_propagation(pot, logZ=True)
+    case2 = dict(case); case2['pots'] = dict(case['pots']); case2['pots'][cl0] = (pa, [v * e for v, e in zip(vals, extra)])
+    out = {}
+    for cl in case['mcl']:
+        f = marg[cl]
+        out[cl] = (list(f.domain.attrs), [float(v) for v in np.asarray(f.values, dtype=float).reshape(-1)])
+    return case2, (float(logZ), out)
 
 
 def jsonable(case, sched=None):
@@ -186,7 +225,7 @@ def main(chk):
     n = 200 if chk.tier == 'quick' else 2500
     pending = []
     for it in range(n):
-        case = build_case(chk, rng, chk.tier)
+        case = build_case(chk, rng, chk.tier, force_ring=(it % 10 == 7))      # every tenth case: a chordless ring of >= 5 cliques
         if case['sched'] is None:
             chk.violation(dict(kind='no-schedule'), 'no dependency-respecting schedule exists for the tree the code built', jsonable(case, case['code_sched']), found_input=True)
             continue
@@ -194,14 +233,21 @@ def main(chk):
             if tag == 'code schedule' and it % 3:
                 continue
             line, code, err = check_case(chk, case, sched, tag)
-            nontriv = (len(case['mcl']) >= 3 or any(len(c) >= 3 for c in case['mcl'])) and (case['attrs'] != sorted(case['attrs']) or case['stream'] in ('zeros', 'huge'))
+            nontriv = (len(case['mcl']) >= 3 or any(len(c) >= 3 for c in case['mcl'])) and (case['attrs'] != sorted(case['attrs']) or case['stream'] in ('zeros', 'huge', 'compensate'))
             chk.case(line, nontriv, jsonable(case, sched) if len(chk.samples) < 2 else None)
             chk.count('stream.' + case['stream']); chk.count('order.' + case['mode']); chk.count('ncliques=%d' % len(case['mcl'])); chk.count('schedule.' + tag.split()[0])
             pending.append((case, sched, code, err, line, tag))
+        if it % 3 == 1 and case['stream'] in ('small', 'zeros', 'unit'):
+            try:
+                case2, code2 = run_history(case, case['sched'], rng)
+                chk.count('history.in-place-update'); chk.case(model_line(case2, case['sched']) + ' history', True)
+                pending.append((case2, case['sched'], code2, None, model_line(case2, case['sched']), 'second call after an in-place update of the same parameter object'))
+            except Exception as e:
+                chk.violation(dict(kind='bp', what='exception after in-place update'), 'belief_propagation raised %s after an in-place update of its parameter object' % common.exc_kind(e), jsonable(case, case['sched']), found_input=True)
     outs = common.run_model([p[4] for p in pending], timeout=2400)
     # the definition GENERATED from GraphicalModel.belief_propagation by translator/py2gallina_bp.py, on the same cases
     # (the 2^+-1200 stream is left to the hand model: big-rational arithmetic dominates; the logZ branch is exercised on every third case)
-    gsel = [k for k, p in enumerate(pending) if p[0]['stream'] != 'huge' and (chk.tier == 'quick' or k % 4 == 0)]
+    gsel = [k for k, p in enumerate(pending) if p[0]['stream'] not in ('huge', 'compensate') and (chk.tier == 'quick' or k % 4 == 0)]
     glines = ['bp_src' + pending[k][4][2:].rsplit(' ', 1)[0] + (' 1' if k % 3 == 0 else ' 0') for k in gsel]
     gmap = dict(zip(gsel, common.run_gen(glines, timeout=2400)))
     for k, ((case, sched, code, err, line, tag), out) in enumerate(zip(pending, outs)):
